@@ -200,3 +200,62 @@ def words(r, alpha, maxlen, cap_per_len=200):
             nxt = nxt[:cap_per_len * 8]
         frontier = nxt
     return out
+
+
+def cover_word(r, need, limit=30000):
+    """search for a word of r whose letter counts dominate the multiset `need` (list of names); BFS over
+    (derivative, remaining need).  Returns the word or None (None is NOT a proof of deadness)."""
+    from collections import deque, Counter
+    start = tuple(sorted(Counter(need).items()))
+    q = deque([((), r, start)])
+    seen = {(r, start)}
+    n = 0
+    while q and n < limit:
+        w, x, nd = q.popleft()
+        n += 1
+        if not nd and nullable(x):
+            return list(w)
+        ndd = dict(nd)
+        f = sorted(first(x))
+        # prefer symbols that are still needed
+        f.sort(key=lambda s: 0 if s in ndd else 1)
+        for s in f:
+            d = deriv(x, s)
+            if d == VOID:
+                continue
+            if s in ndd:
+                nn = dict(ndd)
+                nn[s] -= 1
+                if nn[s] == 0:
+                    del nn[s]
+                nt = tuple(sorted(nn.items()))
+            else:
+                nt = nd
+            if (d, nt) not in seen:
+                seen.add((d, nt))
+                q.append((w + (s,), d, nt))
+    return None
+
+
+def arrangements(r, multiset, cap=3):
+    """distinct words of r that use exactly the multiset (up to `cap`)"""
+    from collections import Counter
+    out = []
+
+    def go(x, rem, w):
+        if len(out) >= cap:
+            return
+        if not rem:
+            if nullable(x):
+                out.append(list(w))
+            return
+        for s in sorted(rem):
+            d = deriv(x, s)
+            if d != VOID:
+                r2 = dict(rem)
+                r2[s] -= 1
+                if r2[s] == 0:
+                    del r2[s]
+                go(d, r2, w + [s])
+    go(r, dict(Counter(multiset)), [])
+    return out
